@@ -169,7 +169,11 @@ func orOK(v verdict) string {
 func stepLabel(c *Case) string {
 	l := c.Method + " " + c.Template + " " + c.Consumes + "->" + c.Produces
 	if c.Auth {
-		l += " +auth"
+		m := c.AuthMode
+		if m == "" {
+			m = "body1"
+		}
+		l += " +auth(" + m + ")"
 	}
 	return l
 }
